@@ -377,8 +377,14 @@ pub fn run_build_once(
     let mut cmd;
     if let Some(t) = trace {
         cmd = Command::new("strace");
-        // --seccomp-bpf: only the traced syscalls stop the tracee (much cheaper with -f)
-        cmd.arg("-f").arg("--seccomp-bpf").arg("-y").arg("-s").arg("8").arg("-o").arg(t);
+        cmd.arg("-f");
+        // --seccomp-bpf: only the traced syscalls stop the tracee (much cheaper with -f). Not for
+        // signal injection: in that mode the syscall-entry stop is a seccomp event stop, and a signal
+        // passed when resuming from it is not delivered (observed: the process runs to completion).
+        if !injects.iter().any(|i| i.action.starts_with("signal")) {
+            cmd.arg("--seccomp-bpf");
+        }
+        cmd.arg("-y").arg("-s").arg("8").arg("-o").arg(t);
         cmd.arg("-e").arg(format!("trace={TRACED}"));
         for i in injects {
             cmd.arg("-e").arg(format!("inject={}:{}:when={}", i.syscall, i.action, i.when));
